@@ -475,7 +475,8 @@ impl<W: Write> WriteDesc<&mut W> for DecoderConfigDescriptor {
 
         writer.write_u8(self.object_type_indication)?;
         writer.write_u8((self.stream_type << 2) + (self.up_stream & 0x02) + 1)?; // 1 reserved
-        writer.write_u24::<BigEndian>(self.buffer_size_db)?;
+        // bufferSizeDB is a 24-bit field
+        writer.write_u24::<BigEndian>(self.buffer_size_db.min(0x00FF_FFFF))?;
         writer.write_u32::<BigEndian>(self.max_bitrate)?;
         writer.write_u32::<BigEndian>(self.avg_bitrate)?;
 
